@@ -156,11 +156,15 @@ func buildDynSchema() *rschema {
 			{Name: "kids", Num: 1, Kind: corpus.Message, TypeName: ".zdyn.BTree", Map: true, KeyKind: corpus.Bool},
 			{Name: "xs", Num: 2, Kind: corpus.Uint32, Rep: true},
 			{Name: "leaf", Num: 3, Kind: corpus.Message, TypeName: ".zdyn.Chain"},
-			{Name: "tags", Num: 4, Kind: corpus.String, Map: true, KeyKind: corpus.Bool},
-			// well-known values under colliding keys: an entry that is visited twice must end up holding ONE generated value
-			{Name: "masks", Num: 5, Kind: corpus.Message, TypeName: fmT, Map: true, KeyKind: corpus.Bool},
-			{Name: "whens", Num: 6, Kind: corpus.Message, TypeName: tsT, Map: true, KeyKind: corpus.Bool},
-			{Name: "spans", Num: 7, Kind: corpus.Message, TypeName: durT, Map: true, KeyKind: corpus.Bool}}},
+			{Name: "tags", Num: 4, Kind: corpus.String, Map: true, KeyKind: corpus.Bool}}},
+		{Name: "BMaps", Fields: []corpus.F{ // not recursive, so never skipped for cost: values under colliding (bool) keys —
+			// an entry that is visited twice must end up holding ONE generated value
+			{Name: "masks", Num: 1, Kind: corpus.Message, TypeName: fmT, Map: true, KeyKind: corpus.Bool},
+			{Name: "whens", Num: 2, Kind: corpus.Message, TypeName: tsT, Map: true, KeyKind: corpus.Bool},
+			{Name: "spans", Num: 3, Kind: corpus.Message, TypeName: durT, Map: true, KeyKind: corpus.Bool},
+			{Name: "chains", Num: 4, Kind: corpus.Message, TypeName: ".zdyn.Chain", Map: true, KeyKind: corpus.Bool},
+			{Name: "names", Num: 5, Kind: corpus.String, Map: true, KeyKind: corpus.Bool},
+			{Name: "mask_list", Num: 6, Kind: corpus.Message, TypeName: fmT, Rep: true}}},
 		{Name: "LTree", Fields: []corpus.F{
 			{Name: "kids", Num: 1, Kind: corpus.Message, TypeName: ".zdyn.LTree", Rep: true},
 			{Name: "s", Num: 2, Kind: corpus.String}}},
